@@ -122,17 +122,23 @@ pub fn any_f32_small() -> f32 {
     (any_i8m() as f32) * 0.125
 }
 
-/// Tiny symbolic float domain s/8, s in [-7,7].
+/// Tiny symbolic float domain s/8, s in [-7,7], plus -0.0.
 #[cfg(kani)]
 #[inline]
 pub fn any_f64_tiny() -> f64 {
-    let s: i8 = (kani::any::<u8>() % 15) as i8 - 7;
+    // selector 15 is the negative zero (a value `x < 0.0` and `is_sign_negative()` disagree on)
+    let r: u8 = kani::any::<u8>() % 16;
+    if r == 15 { return -0.0; }
+    let s: i8 = r as i8 - 7;
     (s as f64) * 0.125
 }
 #[cfg(kani)]
 #[inline]
 pub fn any_f32_tiny() -> f32 {
-    let s: i8 = (kani::any::<u8>() % 15) as i8 - 7;
+    // selector 15 is the negative zero (a value `x < 0.0` and `is_sign_negative()` disagree on)
+    let r: u8 = kani::any::<u8>() % 16;
+    if r == 15 { return -0.0; }
+    let s: i8 = r as i8 - 7;
     (s as f32) * 0.125
 }
 
